@@ -20,6 +20,9 @@ class FakeServer:
     def __init__(self, version=7):
         self.lock = threading.Lock()
         self.dbs = defaultdict(self._new_db)
+        # Create database 0 now: connections look it up outside the lock, and
+        # two threads connecting at once could otherwise each create their own
+        self.dbs[0]
         # Maps SHA1 to script source
         self.script_cache = {}
         # Maps channel/pattern to weak set of sockets
